@@ -154,6 +154,7 @@ _SIGS = {
     "token_case_replay": (c_int, [c_uint64, c_int, c_int]),
     "token_text": (c_size_t, [c_uint64, c_int, c_char_p]),
     "sweep_token_count": (c_int, []),
+    "sweep_unicode_escapes": (None, [c_int, c_int, c_int, POINTER(SweepOut)]),
     "shim_make_chain": (P, [c_int, c_int, c_int, c_int]),
     "shim_chain_length": (c_long, [P, c_long]),
     "shim_chain_hash": (c_uint64, [P, c_long]),
